@@ -18,7 +18,7 @@ JudgeTotal(r) ==
   \o (IF r.c \in {"ok", "err", "none"} THEN <<>> ELSE <<"compile-" \o r.c>>)
   \o (IF r.r \in {"ok", "none"} THEN <<>> ELSE <<"render-" \o r.r>>)
   \o (IF r.m \in {"ok", "none"} THEN <<>> ELSE <<"iomap-" \o r.m>>)
-  \o (IF ~CheckSpec \/ Len(r.i) > 400 THEN <<>>
+  \o (IF ~CheckSpec \/ Len(r.i) > 5000 THEN <<>>
       ELSE LET e == ParseText(r.i) IN
            IF e.st = "ok" /\ r.p = "err" /\ ~e.mayrej THEN <<"rejected-valid">>
            ELSE IF e.st = "rej" /\ r.p = "ok" THEN <<"accepted-invalid">>
